@@ -2387,7 +2387,9 @@ class SSHConnection(SSHPacketHandler, asyncio.Protocol):
                                packet: SSHPacket) -> None:
         """Process a key exchange request"""
 
-        if self._kex:
+        # An exchange is still in progress until the peer's new keys
+        # message has been received
+        if self._kex or self._next_recv_encryption:
             raise ProtocolError('Key exchange already in progress')
 
         _ = packet.get_bytes(16)                        # cookie
